@@ -57,4 +57,38 @@ theorem herm_add_eps_psd (R : Matrix n n ℂ) (hR : R.IsHermitian) (ε : ℝ) (h
   rw [heq]
   exact hpsd
 
+
+section certhelpers
+variable {n : Nat}
+theorem toM_diag (v : Vec ℂ n) : (diag v).toM = diagonal (fun i => v.get i) := by
+  ext i j
+  by_cases h : i = j
+  · subst h; simp [diag]
+  · simp [diag, h]
+
+theorem frob2_eq_trace {m k : Nat} (A : Mat ℂ m k) : frob2 A = (A.toMᴴ * A.toM).trace := by
+  simp only [frob2, fsum_eq_sum, Matrix.trace, Matrix.diag_apply, Matrix.mul_apply,
+    Matrix.conjTranspose_apply, Mat.toM_apply, conj_eq_star]
+  rw [Finset.sum_comm]
+
+theorem trMul_eq_trace {k : Nat} (A C : Mat ℂ k k) : trMul A C = (A.toM * C.toM).trace := by
+  simp [trMul, fsum_eq_sum, Matrix.trace, Matrix.mul_apply]
+
+end certhelpers
+
+section choihelpers
+variable {n : Type} [Fintype n] [DecidableEq n]
+/-- Choi matrix `Σ_ij E_ij ⊗ Φ(E_ij)` of a map on matrices -/
+def choi (Φ : Matrix n n ℂ → Matrix n n ℂ) : Matrix (n × n) (n × n) ℂ :=
+  fun p q => Φ (Matrix.single p.1 q.1 1) p.2 q.2
+
+/-- Choi matrix of `ρ ↦ KρKᴴ` is the rank-one matrix `|vec K⟩⟩⟨⟨vec K|` -/
+theorem choi_conj (K : Matrix n n ℂ) :
+    choi (fun ρ => K * ρ * Kᴴ) = vecMulVec (fun p : n × n => K p.2 p.1) (star fun p : n × n => K p.2 p.1) := by
+  ext p q
+  simp [choi, vecMulVec_apply, Matrix.mul_apply, Matrix.single_apply, Matrix.conjTranspose_apply,
+    Finset.sum_mul, ite_and]
+
+end choihelpers
+
 end QM.C17
